@@ -170,6 +170,53 @@ struct SD // strings, map, pair, tuple as members (archive system only)
     }
 };
 
+// User types whose default-constructed state is not empty (default member initialisers, as a configuration record
+// has them): deserialize<T>() starts from such an object, so every member has to be *replaced* by the decoded one.
+struct SE // archive system
+{
+    std::string name = "dflt";
+    std::vector<int16_t> v{1, 2, 3};
+    std::map<uint8_t, int32_t> m{{1, 2}, {9, -1}};
+    std::vector<std::string> names{"a", ""};
+    uint32_t crc = 5;
+    auto tie() { return std::tie(name, v, m, names, crc); }
+    auto tie() const { return std::tie(name, v, m, names, crc); }
+    template <class R> void reflect(R &r)
+    {
+        r &name;
+        r &v;
+        r &m;
+        r &names;
+        r &crc;
+    }
+};
+struct SF // both systems: scalars and vectors of scalars with non-empty defaults
+{
+    int32_t n = 7;
+    std::vector<uint8_t> bytes{0xAA, 0x55};
+    std::vector<double> w{1.5};
+    auto tie() { return std::tie(n, bytes, w); }
+    auto tie() const { return std::tie(n, bytes, w); }
+    template <class R> void reflect(R &r)
+    {
+        r &n;
+        r &bytes;
+        r &w;
+    }
+    template <class R> void serialize_reflect(R &r)
+    {
+        r &n;
+        r &bytes;
+        r &w;
+    }
+    template <class R> void serialize_reflect(R &r) const
+    {
+        r &n;
+        r &bytes;
+        r &w;
+    }
+};
+
 // ------------------------------------------------------------ nesting depth
 // scalar 0; string 1; container / pair / tuple / struct = 1 + deepest member
 template <class T> constexpr int depth();
